@@ -1,6 +1,7 @@
 import Flatland.JsonUtil
 import Flatland.C17
 import Flatland.Spec.C17
+import Flatland.C17Frames
 open Lean Flatland.J
 namespace Flatland.Run.C17
 open Flatland.C17
@@ -145,20 +146,48 @@ def stepAgrees (σ σ' : State) (c : Cmd) (keys : List Key) : Bool :=
   let s' := Spec.step (Spec.abs σ) c
   (allViews σ').all (fun v => keys.all (fun k => Spec.visible s' v k == Spec.visible (Spec.abs σ') v k))
 
+/-- the observer of the harness: `list(view.items())` through every view, executed on the MECHANISM
+    model (so that it materialises what the real observer materialises) and compared with model A -/
+def observeF (σf : Frames.FState) (σ : State) : Frames.FState × Bool :=
+  (allViews σ).foldl (fun (acc : Frames.FState × Bool) v =>
+    let (τ, r) := Frames.fstep false acc.1 (.op v .items)
+    (τ, acc.2 && (r == Res.items (viewItems σ v) ||
+      -- a view of a class that resolves no descriptor shows nothing in model A
+      (r == Res.err .attributeError && viewItems σ v == [])))) (σf, true)
+
 def run (j : Json) : Except String Json := do
   let init ← parsePairs j "init"
   let cmds ← (← afld j "cmds").mapM parseCmd
+  let lazy := match fldD j "lazy" (Json.bool false) with | .bool b => b | _ => false
+  -- root="named": class 0 stands for `Element` (the owner) in the models but is a plain subclass in
+  -- the code; its materialisation is not comparable
+  let named := match fldD j "root" (Json.str "using") with | .str s => s == "named" | _ => false
   let mut σ := initState init
+  let mut σf := Frames.finit init
   let mut snap := snapshot σ
   let mut out : Array Json := #[]
   let mut agrees := readAgrees σ (stateKeys σ)
+  let mut fagrees := true
   let mut guarded : Nat := 0
   let enc := fun (p : View × List (Key × Val)) => Json.arr #[ofView p.1, ofPairs p.2]
   let first := ofList enc snap
+  if !lazy then
+    let (τ, ok) := observeF σf σ
+    σf := τ
+    fagrees := fagrees && ok
   for c in cmds do
     let (σ', r) := step σ c
+    let (σf', rf) := Frames.fstep false σf c
+    -- the mechanism model next to model A: same result, same views
+    fagrees := fagrees && (rf == r)
+    let mat := (Frames.materialised σf').filter (fun c => !(named && c == 0))
+    σf := σf'
+    if !lazy then
+      let (τ, ok) := observeF σf σ'
+      σf := τ
+      fagrees := fagrees && ok
     let snap' := snapshot σ'
-    out := out.push (obj [("r", ofRes r), ("d", ofList enc (delta snap snap'))])
+    out := out.push (obj [("r", ofRes r), ("d", ofList enc (delta snap snap')), ("m", ofList ofNat mat)])
     let keys := (cmdKeys c ++ stateKeys σ ++ stateKeys σ').eraseDups
     -- read_is_overlay needs coherence (single inheritance gives it); the step refinement in
     -- addition needs unshared descriptors and excludes the instance-clear() of KF-C17-a
@@ -170,7 +199,11 @@ def run (j : Json) : Except String Json := do
       guarded := guarded + 1
     σ := σ'
     snap := snap'
-  return obj [("start", first), ("steps", Json.arr out), ("spec_agrees", Json.bool agrees),
-    ("_guarded", ofNat guarded)]
+  if lazy then
+    let (τ, ok) := observeF σf σ
+    σf := τ
+    fagrees := fagrees && ok
+  return obj [("start", first), ("steps", Json.arr out), ("spec_agrees", Json.bool (agrees && fagrees)),
+    ("_guarded", ofNat guarded), ("_frames_agree", Json.bool fagrees), ("_model_a_spec", Json.bool agrees)]
 
 end Flatland.Run.C17
